@@ -96,7 +96,7 @@ func runC26(c *core.Ctx) {
 		e.suiteTables()
 	}
 	e.lengthSweeps()
-	n := c.PerShard(c.Pick(240000, 6000000))
+	n := c.PerShard(c.Pick(160000, 6000000))
 	rng := c.Rng
 	for i := 0; i < n; i++ {
 		e.randomCase(rng)
